@@ -144,7 +144,13 @@ func (p *prover) paramFacts() {
 					continue
 				}
 				d := addLin(la, negLin(pc.qlin(qb, args)))
-				if k, ok := pc.boundAt(cs.Block(), d); ok {
+				k, ok := pc.boundAt(cs.Block(), d)
+				if (!ok || k > 0) && d.ok && qb.isLen && pc.entails(cs.Block(), d, 0) {
+					// "does not exceed that length" may need the caller's case split over a join (a value that is 0
+					// or an index found in the buffer): asked as a question, not read off the facts in force
+					k, ok = 0, true
+				}
+				if ok {
 					cur[pair{i, j}] = k
 				}
 			}
